@@ -24,7 +24,7 @@ func exhLens(tier string) (l14, l2, l3 int) {
 
 func nRandom(tier string) int {
 	if tier == "thorough" {
-		return 2500000
+		return 1500000
 	}
 	return 250000
 }
